@@ -49,7 +49,8 @@ pub fn reference(ops: &[Op]) -> Refs {
             }
             Op::DeleteNode(i) => {
                 let id = s.nodes[*i as usize];
-                let mut eids: Vec<_> = db.iter_edges().filter(|e| e.src == id || e.dst == id).map(|e| e.id).collect();
+                // GrafeoDB::delete_node detaches only when the node exists (edges hanging on an already deleted node stay)
+                let mut eids: Vec<_> = if db.get_node(id).is_some() { db.iter_edges().filter(|e| e.src == id || e.dst == id).map(|e| e.id).collect() } else { vec![] };
                 eids.sort_unstable();
                 for e in eids {
                     db.delete_edge(e);
@@ -86,9 +87,7 @@ pub struct Recorded {
     pub images: Vec<DbImage>,
     /// the reopen inside the history already lost something (C05-type divergence): (op index, detail)
     pub diverged: Option<(usize, String)>,
-    pub final_image: Image,
     pub syncs: u64,
-    pub events: Vec<(usize, String)>,
 }
 
 fn log_file_of(img: &Image) -> Option<&String> {
@@ -250,7 +249,33 @@ pub fn record(dir: &Path, mode: Mode, ops: &[Op], refs: &Refs, bit_flips: Option
             }
         }
     }
-    Recorded { images, diverged, final_image, syncs: rec.syncs, events: rec.events }
+    Recorded { images, diverged, syncs: rec.syncs }
+}
+
+/// Fact-level state obtained by applying only the effects of operations `from..to` (as fact deltas of the
+/// reference run) to an empty graph, keeping what is visible (facts of entities that exist).  Only used to
+/// *name* the mechanism "everything before a checkpoint was dropped, the rest was replayed".
+fn suffix_state(refs: &Refs, from: usize, to: usize) -> Dump {
+    let mut facts: BTreeSet<String> = BTreeSet::new();
+    for i in from..to.min(refs.refs.len() - 1) {
+        let (a, b) = (&refs.refs[i].facts, &refs.refs[i + 1].facts);
+        for f in a.difference(b) {
+            facts.remove(f);
+        }
+        for f in b.difference(a) {
+            facts.insert(f.clone());
+        }
+    }
+    let visible: BTreeSet<String> = facts
+        .iter()
+        .filter(|f| {
+            let owner = fact_owner(f);
+            let pre = owner_fact_prefix(&owner);
+            f.starts_with("n|") || f.starts_with("e|") || f.starts_with("t|") || facts.iter().any(|g| g.as_str() == pre || (pre.ends_with('|') && g.starts_with(&pre)))
+        })
+        .cloned()
+        .collect();
+    Dump { facts: visible }
 }
 
 /// Variant tags (first payload byte) of the whole records of a log, and whether bytes follow the last whole record.
@@ -343,8 +368,10 @@ pub fn eval_image(work: &Path, mode: Mode, ops: &[Op], refs: &Refs, im: &DbImage
             }
             None => {
                 let intra = refs.micro.iter().any(|(k, d)| *k < im.issued && *d == got);
+                // does the state consist of exactly the operations issued after a wal_checkpoint() (everything before it dropped)?
+                let after_cp = ops[..hi.min(ops.len())].iter().enumerate().filter(|(_, o)| matches!(o, Op::Checkpoint)).any(|(c, _)| (c + 1..=hi).any(|k| suffix_state(refs, c + 1, k) == got));
                 let mut sig = base_sig("not-a-prefix");
-                sig.push(("prefix-class".into(), if intra { "intra-operation" } else { "none" }.into()));
+                sig.push(("prefix-class".into(), if intra { "intra-operation" } else if after_cp { "suffix-after-checkpoint" } else { "none" }.into()));
                 sig.push(("log-tail".into(), tail.into()));
                 out.violations.push(mk(sig, format!("recovered state equals no prefix state 0..={hi}; versus the longest prefix: {}", diff_text(&refs.refs[hi], &got))));
             }
